@@ -255,7 +255,7 @@ def main(tier):
             'breakpoint addresses; answers are compared with the llvm-dwarfdump decode; distinct = distinct (program, config)')
     V = Verdict('C04', tier, rule)
     V.minima = {'pc_lookups': 2000, 'line_queries': 300, 'function_queries': 40, 'multi_instance_line_queries': 5} if tier == 'quick' else \
-        {'pc_lookups': 400000, 'line_queries': 15000, 'function_queries': 1500, 'multi_instance_line_queries': 300}
+        {'pc_lookups': 100000, 'line_queries': 15000, 'function_queries': 1500, 'multi_instance_line_queries': 300}
     V.assumptions = ['only user compilation units are judged', 'when several rows share the governing address any of their lines is accepted',
                      'nightly 1.97 is outside BugStalker\'s supported rustc table and is not exercised; non-PIE is C18\'s subject']
     if tier == 'quick':
